@@ -245,4 +245,6 @@ WITNESSES = [
      "old": "\t\trtval = SPKI_RECORD_NOT_FOUND;\n", "new": "\t\trtval = SPKI_RECORD_NOT_FOUND;\n\t\tpthread_rwlock_unlock(&spki_table->lock);\n"},
     {"id": "C16.w-copy-gives-up-the-source-lock-per-entry", "rule": "C16.R3", "file": "rtrlib/spki/hashtable/ht-spkitable.c",
      "old": "\t\t\tif (spki_table_add_entry(dst, &record) != SPKI_SUCCESS) {", "new": "\t\t\tpthread_rwlock_unlock(&src->lock);\n\t\t\tpthread_rwlock_rdlock(&src->lock);\n\t\t\tif (spki_table_add_entry(dst, &record) != SPKI_SUCCESS) {"},
+    {"id": "C16.w-spki-free-under-the-read-lock", "rule": "C16.R1", "file": "rtrlib/spki/hashtable/ht-spkitable.c",
+     "old": "void spki_table_free(struct spki_table *spki_table)\n{\n\tpthread_rwlock_wrlock(&spki_table->lock);", "new": "void spki_table_free(struct spki_table *spki_table)\n{\n\tpthread_rwlock_rdlock(&spki_table->lock);"},
 ]
